@@ -132,6 +132,38 @@ def build():
         raise TieBroken("get_mcp_servers: tmp is not f\"{MCP_CACHE_PATH}<infix>{os.getpid()}\"")
     out.append(_str("SL_MCP_TMP_INFIX", _const(mj[1], str, "get_mcp_servers: infix"), "get_mcp_servers: between MCP_CACHE_PATH and the pid"))
 
+    # --- the repairs the model follows (fail closed when one of them disappears)
+    # get_context_from_transcript: `if not transcript_path or not isinstance(transcript_path, str): return None` comes first
+    gt = func(sl, "get_context_from_transcript")
+    first = next(n for n in gt.body if not (isinstance(n, ast.Expr) and isinstance(n.value, ast.Constant)))
+    arg = gt.args.args[0].arg
+    if not (isinstance(first, ast.If) and ast.unparse(first.test) == f"not {arg} or not isinstance({arg}, str)"
+            and isinstance(first.body[-1], ast.Return) and ast.unparse(first.body[-1]) == "return None"):
+        raise TieBroken("get_context_from_transcript: the first statement is not the `not a non-empty str -> None` guard")
+    # build_statusline: return SEP2.join(SEP.join(parts).splitlines())
+    bs = func(sl, "build_statusline")
+    ret = _one([n for n in ast.walk(bs) if isinstance(n, ast.Return)], "build_statusline: return").value
+    ok = (isinstance(ret, ast.Call) and isinstance(ret.func, ast.Attribute) and ret.func.attr == "join" and len(ret.args) == 1
+          and isinstance(ret.args[0], ast.Call) and isinstance(ret.args[0].func, ast.Attribute) and ret.args[0].func.attr == "splitlines"
+          and not ret.args[0].args and not ret.args[0].keywords)
+    inner = ret.args[0].func.value if ok else None
+    ok = ok and isinstance(inner, ast.Call) and isinstance(inner.func, ast.Attribute) and inner.func.attr == "join" \
+        and len(inner.args) == 1 and isinstance(inner.args[0], ast.Name)
+    if not ok:
+        raise TieBroken("build_statusline: return is not <sep2>.join(<sep>.join(parts).splitlines())")
+    out.append(_str("SL_SEP", _const(inner.func.value, str, "build_statusline: separator"), "build_statusline: between the parts"))
+    out.append(_str("SL_COLLAPSE_SEP", _const(ret.func.value, str, "build_statusline: collapse separator"),
+                    "build_statusline: what replaces a line break of the joined line"))
+    # main: the cached text is served only if it is exactly one line
+    mn = func(sl, "main")
+    conds = [ast.unparse(n.test) for n in ast.walk(mn) if isinstance(n, ast.If)]
+    if conds != ["cached and cached.splitlines() == [cached]"]:
+        raise TieBroken(f"main: the serve condition is {conds}, the model assumes `cached and cached.splitlines() == [cached]`")
+    # str.splitlines() boundaries of this interpreter
+    brk = [c for c in range(0x110000) if len(("a" + chr(c) + "b").splitlines()) == 2]
+    out.append("(* code points at which str.splitlines() breaks (this interpreter) *)\nDefinition SL_LINE_BREAKS : list N :=\n  ["
+               + "; ".join(str(c) for c in brk) + "].\n")
+
     # --- comparison operators against the TTLs
     gc = func(sl, "get_cached")
     op1 = _cmp_with(gc, "CACHE_TTL", "get_cached: comparison with CACHE_TTL")
